@@ -413,3 +413,27 @@ PROPS["C11"] = {
          "trace_invariants": LIVE_INV, "tv_timeout": 3000, "timeout": 7200},
     ],
 }
+
+# ------------------------------------------------------------------------------------------ C06
+PROPS["C06"] = {
+    "level": "fault_enumeration",
+    "rule": "model: every interleaving of <= 3 inserts (pruning and non-pruning) with transaction ageing, flush and a crash "
+            "before any table access; implementation: seeded histories (5-10 calls: local / remote inserts that prune or not, "
+            "prefix deletes, peers, policies, removal, flush, snapshot reads, open/close over 2 documents); for EVERY call and "
+            "EVERY table access of that call the history is re-run with the age-based commit forced right before that access, "
+            "and after every call from there on the database file is copied without commit, reopened and observed; a case is "
+            "one crash image; distinct_nontrivial counts crash images (each is a distinct (history, commit placement, call))",
+    "assumptions": ["redb's own crash atomicity (torn pages, fsync ordering) is trusted: images are file copies taken between "
+                    "two calls of a quiescent single-threaded process",
+                    "live states are taken from a baseline run of the same deterministic history (clock pinned by hook H2)"],
+    "models": [
+        {"name": "storetx", "module": "MCStoreTx", "workers": 6,
+         "consts": dict(ENTRY, Universe="<- UTx", MaxCalls=3, PutAtomic="TRUE"),
+         "invariants": ["CrashStateIsBoundary", "DurableIsNormal"]},
+    ],
+    "sensitivity": [{"base": "storetx", "flip": {"PutAtomic": "FALSE"}}],
+    "drives": [
+        {"name": "storetx", "cmd": "storetx", "args": {"n": {"quick": 14, "thorough": 400}},
+         "trace_module": "StoreTxTrace", "trace_consts": dict(ENTRY), "tv_timeout": 3000, "timeout": 7200},
+    ],
+}
